@@ -252,3 +252,100 @@ def register_tif(reg):
             'bytes_written == G[tif_markers_stripped - 1]', 'len(file_out.data) == bytes_written', 'file_out.pos == bytes_written',
             'forall(0, len(file_out.data), lambda n: file_out.data[n] == P[n])'])],
         canaries=['result[0] == 1', 'len(file_out.data) == 0'], crosscheck=False, timeout=40))
+
+
+def standins(tier, seed):
+    """Round trips through the real writer and reader with every trailer option, TIF on/off, and random interleavings of
+    read(n) / skip(n) / read-rest / seek-to-record; writer output compared with the independent encoder; strip_tif of a
+    TIF-marked file equals the unmarked file.  The reader state machine (read/skip loops across physical records) is
+    NOT under contract: this stand-in is its only coverage.  Bounded."""
+    from pyvc import standin
+    n = 120 if tier == 'quick' else 4000
+    code = r'''
+import io
+from gen import lis
+from TotalDepth.LIS.core import File, PhysRec
+from TotalDepth import DeTif
+rnd = random.Random(%d)
+bad = []
+cases = 0
+for it in range(%d):
+    nlr = rnd.randint(1, 5)
+    lrs = [bytes(rnd.randrange(256) for _ in range(rnd.choice([2, 3, 10, 40, 100, 257]))) for _ in range(nlr)]
+    has_rec, has_check = rnd.random() < 0.4, rnd.random() < 0.3
+    file_num = rnd.choice([None, None, 3, 70000])
+    tlen = (2 if has_rec else 0) + (2 if file_num is not None else 0) + (2 if has_check else 0)
+    pr_len = rnd.choice([4 + tlen + 1, 4 + tlen + 7, 32 + tlen, 128, 65535])
+    tif = rnd.random() < 0.5
+    cases += 1
+    why = None
+    try:
+        f = io.BytesIO()
+        w = File.FileWrite(f, 'id', False, tif, pr_len, PhysRec.PhysRecTail(has_rec, file_num, has_check))
+        tells = [w.write(lr) for lr in lrs]
+        if tif:
+            w._prh.tif.close(w._prh.stream)
+        data = f.getvalue()
+        want, starts = lis.build(lrs, pr_len, has_rec, file_num, has_check, tif)
+        # compare ignoring checksum values (bytes the independent encoder writes as zero)
+        if tells != starts:
+            why = 'write positions %%r != %%r' %% (tells, starts)
+        elif len(data) != len(want) or (not has_check and data != want):
+            why = 'writer layout differs from LIS-79 layout'
+        if why is None:
+            r = File.FileRead(io.BytesIO(data), 'id', False)
+            # sequential whole-record reads
+            for k, lr in enumerate(lrs):
+                got = r.readLrBytes()
+                if got != lr or r.tellLr() != starts[k]:
+                    why = 'sequential read of record %%d' %% k
+                    break
+        if why is None:
+            # random interleavings
+            for _ in range(6):
+                k = rnd.randrange(nlr)
+                r.seekLr(starts[k])
+                acc = b''
+                pos = 0
+                lr = lrs[k]
+                while pos < len(lr) and why is None:
+                    op = rnd.choice(['read', 'skip', 'rest'])
+                    sz = rnd.randint(0, 50)
+                    if op == 'read':
+                        got = r.readLrBytes(sz)
+                        exp = lr[pos:pos + sz]
+                        if (got or b'') != exp:
+                            why = 'read(%%d) at %%d of record %%d' %% (sz, pos, k)
+                        pos += len(exp)
+                    elif op == 'skip':
+                        got = r.skipLrBytes(sz)
+                        exp = min(sz, len(lr) - pos)
+                        if got != exp:
+                            why = 'skip(%%d) at %%d of record %%d gave %%r' %% (sz, pos, k, got)
+                        pos += exp
+                    else:
+                        got = r.readLrBytes()
+                        if (got or b'') != lr[pos:]:
+                            why = 'read-rest at %%d of record %%d' %% (pos, k)
+                        pos = len(lr)
+                if why:
+                    break
+        if why is None and tif:
+            out = io.BytesIO()
+            DeTif.strip_tif(io.BytesIO(data), out)
+            plain, _ = lis.build(lrs, pr_len, has_rec, file_num, has_check, False)
+            got = out.getvalue()
+            if len(got) != len(plain) or (not has_check and got != plain):
+                why = 'strip_tif output differs from the unmarked file'
+    except Exception as e:
+        why = 'exception %%r' %% (e,)
+    if why and len(bad) < 3:
+        bad.append({'iteration': it, 'why': why, 'lr_lengths': [len(x) for x in lrs], 'pr_len': pr_len, 'has_rec': has_rec,
+                    'file_num': file_num, 'has_check': has_check, 'tif': tif})
+print(json.dumps({'cases': cases, 'bad': bad}))
+if bad:
+    sys.exit(1)
+''' % (seed, n)
+    return [standin.run('lis-write-read-round-trips', 'bounded: random logical records / physical record lengths / trailer options / TIF; '
+                        'random read(n), skip(n), read-rest, seek interleavings; independent LIS-79 encoder as layout oracle',
+                        '%d files of 1..5 logical records of 2..257 bytes, 6 seek + interleaving rounds each' % n, code)]
